@@ -6,8 +6,11 @@ Bounded exhaustive product (shape P of DESIGN.md) executed on the real parser, t
    the stock dumper and of jsonargparse's loader, plus the YAML indicators) up to a token bound, placed at seven
    positions (str value, Optional[str], Union[int,str], List[str] item, Dict[str,int] key, Any value, leaf of a
    nested Any value), accepted through parse_object (and argv where the spelling is direct), dumped in yaml / json /
-   json_indented with nulls kept and re-parsed with the same parser;
+   json_indented with nulls kept and re-parsed with the same parser; plus the full slot product of YAML's timestamp
+   pattern (date x separator x time x fraction x zone, canonical and non-canonical spellings, impossible dates) and a
+   reduced alphabet of characters that are special to a YAML reader (NEL / LS / PS, DEL, C1, BOM, ...);
 2. typed layer (c01_typed.py): type grammar x accepted values x defaults x parser shapes (flat, nested group,
+   subcommand without arguments, subcommand chosen by alias, --print_config before / after a config file option,
    dataclass, Optional/List/Dict of dataclass, class-typed argument - the spec as the value, as a Union member, as a
    list item, as a dict value, inside Any; with init_args, with dict_kwargs only, with both -, two-level subcommands,
    link, inner parser with a sub-config file) x {dump x 3 formats x skip_default, dump without validation,
